@@ -9,6 +9,16 @@ sys.path.insert(0, VERIF)
 from harness.core import CHECKS  # noqa
 
 TABLE = {
+    "C01": dict(
+        category="fault_enumeration", design_ref="3/C01",
+        technique="exhaustive single-fault enumeration per Hypothesis-generated token (every bit of every decoded segment, every truncation, splices, structural JSON edits, key substitution, alg=none) judged by a differential oracle (independent reference verifier)",
+        text="For every generated base token (joserfc- or reference-minted, all 14 algorithms, 3 serializations, RFC 7797 on/off) all single-bit flips of the decoded protected "
+             "header, payload and signature, all signature truncation lengths, extensions, zero-padding/stripping and DER re-encodings of signature halves, splices from a second "
+             "valid token, 20 structural JSON edits, key substitution and alg=none variants are enumerated (~10^6 faulted tokens per quick run) through every verification entry "
+             "point; whenever joserfc returns an object the independent verifier must accept the same octets under the same keys and recover the same payload/protected header. "
+             "Fault enumeration is complete per generated token, the token space itself is sampled.",
+        note="assumes unforgeability of the primitives; trusts /verif/ref/jws.py (self-tested on RFC vectors); ES384/ES512/ES256K header/payload flips sampled 1 in 4",
+    ),
     "C03": dict(
         category="exploration", design_ref="3/C03",
         technique="Hypothesis-generated signing plans, round-trip oracle (sign with joserfc, verify with the public key form, compare payload octets and header members), detach/restore metamorphic check",
